@@ -274,6 +274,28 @@ def run(tier):
         g += 1
         add({'e': 'un', 'g': g, 'lang': t['lang'], 'x': t['x'], 'table': t['unary'], 'tab': [], 'raised': o['raised'], 'res': o['res'],
              'xa': o['x_after'], 'tn0': o.get('tn0', 0), 'tn1': o.get('tn1', 0)}, {'x': enc.show_cat(t['x']), 'y': '(unary:%s)' % t['unary'], 'raised': o['exc'], 'n_results': len(o['res'])})
+    # ---------------- E. unary lookups through tables that change: one table object edited in place between the calls, and
+    # short-lived tables built for each call (same left-hand side, other targets): the table of each call decides
+    ht = []
+    lhs_pool = [c for c in inv['en'][:40]] + [c for c in inv['ja'][:20]]
+    for i in range(200 if tier == 'quick' else 2000):
+        lang = 'en' if i % 3 else 'ja'
+        pool = inv['en'] if lang == 'en' else inv['ja']
+        xq = rng.choice(pool[:30])
+        mode = 'same' if i % 2 else 'fresh'
+        for step in range(3):
+            targets = rng.sample(pool, rng.randint(0, 3))
+            others = [(rng.choice(pool), rng.choice(pool)) for _ in range(rng.randint(0, 2))]
+            tab = [[xq, t] for t in targets] + [[a, b] for a, b in others if a != xq]
+            ht.append({'t': len(ht), 'op': 'un', 'lang': lang, 'x': xq, 'table': tab, 'hist_table': mode})
+    ob5 = rules.run_tasks(ht, 'c14e', split=False, hashseeds=seeds[:2])
+    for t in ht:
+        o = ob5[seeds[0]][t['t']][0]
+        g += 1
+        add({'e': 'un', 'g': g, 'lang': t['lang'], 'x': t['x'], 'table': 'inline', 'tab': t['table'], 'raised': o['raised'], 'res': o['res'],
+             'xa': o['x_after'], 'tn0': o.get('tn0', 0), 'tn1': o.get('tn1', 0)},
+            {'x': enc.show_cat(t['x']), 'y': '(unary: %s table, %d entries)' % ('one object edited in place' if t['hist_table'] == 'same' else 'built for this call', len(t['table'])),
+             'raised': o['exc'], 'n_results': len(o['res'])})
     rejects, stats = validate('traces/RulesTrace.tla', events, 'c14', per_shard=12000, group='g', env={'AUX_FILE': rules.aux_file()})
     from ..trace import binding_demo
 
